@@ -189,6 +189,10 @@ class ShardCtx:
         counted and the search continues behind them."""
         from hypothesis import HealthCheck, Phase, given, seed, settings
 
+        from pbt.guard import HangSuspected, wall_guard
+
+        own_guard = getattr(importlib.import_module("pbt.props.%s" % self.prop.lower()), "OWN_GUARD", False)
+        case_timeout = int(os.environ.get("VERIF_CASE_TIMEOUT", "120"))
         phases = [Phase.generate]
         if use_target:
             phases.append(Phase.target)
@@ -206,7 +210,15 @@ class ShardCtx:
         )
         @given(strategy)
         def test(case):
-            out = check_case(case)
+            if own_guard:
+                out = check_case(case)
+            else:
+                try:
+                    with wall_guard(case_timeout):
+                        out = check_case(case)
+                except HangSuspected:
+                    # a time budget hit is 'inconclusive', never a violation
+                    out = Outcome(aborted="timeout>%ds" % case_timeout)
             col.add(sub, case, out)
             if out.violation and not out.known:
                 raise _Found()
@@ -427,8 +439,9 @@ def write_evidence(prop, mod, tier, seed, tot, wall, nreg, nviol, known_lines):
         "wall_s": round(wall, 2),
         "violations": nviol,
     }
-    os.makedirs(os.path.join(VERIF, "evidence"), exist_ok=True)
-    with open(os.path.join(VERIF, "evidence", "%s.json" % prop), "w") as f:
+    evdir = os.environ.get("VERIF_EVIDENCE_DIR") or os.path.join(VERIF, "evidence")
+    os.makedirs(evdir, exist_ok=True)
+    with open(os.path.join(evdir, "%s.json" % prop), "w") as f:
         f.write(json.dumps(ev, indent=1, sort_keys=False, default=_json_default))
 
 
